@@ -166,6 +166,31 @@ def takeOver (s : S) (f : First) (authOk : Bool) : S × List SOut :=
     | none => (s, [])
   | _ => (s, [])
 
+/-- the first packet of connection `c` when nothing can be written to that connection any
+more (the peer went away after sending): there is no CONNACK and the connection never exists -
+it holds no subscription, receives nothing, leaves no will.  The CONNECT itself was received and
+(unless refused) accepted: with CleanSession=1 the state stored for that client identifier is
+discarded [MQTT-3.1.2-6], with CleanSession=0 it is kept exactly as it was (the empty state is
+filed if there was none).  In particular a failed handshake never loses the subscriptions or
+open QoS 2 exchanges of a persistent session. -/
+def firstFail (s : S) (c : Nat) (f : First) (authOk : Bool) : S × List SOut :=
+  match f with
+  | .garbage | .other _ => (s, [.closed c])
+  | .connect req =>
+    if !(refusals req authOk).isEmpty then (s, [.closed c]) else
+    let cid := if req.clientId.isEmpty then ("\x00anon".toUTF8.toList ++ (toString c).toUTF8.toList) else req.clientId
+    let clean := req.clean || req.clientId.isEmpty
+    let prior := if clean then none else s.stored.lookup cid
+    ({ s with stored := if clean then s.stored.filter (fun p => p.1 != cid)
+                        else (cid, prior.getD ([], [])) :: s.stored.filter (fun p => p.1 != cid) },
+     [.closed c])
+
+/-- a CONNECT whose answer cannot be written: the take-over of [MQTT-3.1.4-2] has happened -/
+def connectFail (s : S) (c : Nat) (f : First) (authOk : Bool) : S × List SOut :=
+  let (s0, o0) := takeOver s f authOk
+  let (s1, o1) := firstFail s0 c f authOk
+  (s1, o0 ++ o1)
+
 def step1 (s : S) : Ev → S × List SOut
   | .first c f authOk =>
     let (s0, o0) := takeOver s f authOk
